@@ -83,7 +83,39 @@ def cases(tier, seed):
         tabs = [int(rng.integers(0, 2 ** (p * m))) for _ in range(16)]
         fd = [[int(rng.integers(0, p)), int(rng.integers(0, m + 1))] for _ in range(16)]
         cs.append(dict(cfg=cfg, procs=p, maxiter=m, tables=tabs, force=fd, mode='force', _cost=16 * p * m * sum(cfg['nsweeps'])))
+    # mode 'cc': the same pattern space, but the decisions are taken by the shipped CheckConvergence from scripted residuals
+    # (restol 1: 0.5 = converged, 2 = not), with forced-continuation flags at random (step, iteration) positions
+    for ci, cfg in enumerate(cfgs if tier != 'quick' else cfgs[:4] + cfgs[6:8] + cfgs[9:11]):
+        for (p, m) in bounds:
+            tables = list(range(2 ** (p * m)))
+            if tier == 'quick' and len(tables) > 64:
+                tables = [int(x) for x in rng.choice(len(tables), 64, replace=False)]
+            for i in range(0, len(tables), chunk):
+                tb = tables[i:i + chunk]
+                fc = []
+                for _ in tb:
+                    nf = int(rng.integers(0, 3))
+                    f = set()
+                    for _k in range(nf):
+                        s_ = int(rng.integers(0, p))
+                        f.add((s_, m + len([1 for (a, b) in f if a == s_ and b >= m])) if rng.random() < 0.6 else (s_, int(rng.integers(0, m + 1))))
+                    fc.append(sorted(f))
+                cs.append(dict(cfg=cfg, procs=p, maxiter=m, tables=tb, force=fc, mode='cc', _cost=1.3 * len(tb) * p * m * sum(cfg['nsweeps'])))
     return cs
+
+
+def completion_with_force(rows, maxiter, force):
+    """completion iteration per step for decisions taken by CheckConvergence: first j >= completion of the previous step with
+    (j >= maxiter or row[j]) and continuation not forced at (step, j)"""
+    out = []
+    prev = 0
+    for p, row in enumerate(rows):
+        j = prev
+        while not ((j >= maxiter or row[j]) and (p, j) not in force):
+            j += 1
+        out.append(j)
+        prev = j
+    return out
 
 
 def table_rows(code, procs, maxiter):
@@ -111,7 +143,7 @@ def build(case, box, H):
     from pySDC.implementations.sweeper_classes.generic_implicit import generic_implicit
     from pySDC.implementations.transfer_classes.TransferMesh import mesh_to_mesh
 
-    from vf.mon.probes import DoneInjector
+    from vf.mon.probes import ContinueInjector, DoneInjector, ResidualInjector
 
     cfg = case['cfg']
     nlev = len(cfg['nlev']) if isinstance(cfg['nlev'], list) else cfg['nlev']
@@ -126,6 +158,9 @@ def build(case, box, H):
     desc = dict(problem_class=pc, problem_params=pp, sweeper_class=generic_implicit, sweeper_params=dict(num_nodes=M, quad_type='RADAU-RIGHT', QI='LU'),
                 level_params=dict(dt=0.05, restol=-1, nsweeps=nsw if nlev > 1 else nsw[0]), step_params=dict(maxiter=case['maxiter']),
                 convergence_controllers={DoneInjector: dict(box=box)})
+    if case['mode'] == 'cc':
+        desc['level_params']['restol'] = 1.0
+        desc['convergence_controllers'] = {ResidualInjector: dict(box=box), ContinueInjector: dict(box=box)}
     if nlev > 1:
         desc.update(space_transfer_class=mesh_to_mesh, space_transfer_params=dict(iorder=2, rorder=2))
     cp = dict(logger_level=50, dump_setup=False, hook_class=[H], mssdc_jac=cfg['jac'], all_to_done=cfg['a2d'])
@@ -154,7 +189,12 @@ def run_case(case):
     box = dict(table=None)
     mon = dict(frozen={}, frozen_viol=[], ms=None)
 
+    class IterationGuard(Exception):
+        pass
+
     def extra(ev, step, level_number):
+        if step.status.iter > maxiter + 10:
+            raise IterationGuard(f'slot {step.status.slot} reached iteration {step.status.iter}')
         # frozen-state monitor: every step that has finished (stage DONE) must keep the digests it had at its post_step
         if mon['ms'] is None:
             return
@@ -202,14 +242,25 @@ def run_case(case):
         box['table'] = rows
         box['force_done'] = {tuple(case['force'][ti])} if case['mode'] == 'force' else None
         box['decisions'] = []
+        fcont = set()
+        if case['mode'] == 'cc':
+            fcont = {tuple(x) for x in case['force'][ti]}
+            box['force_continue'] = fcont
+            box['forced'] = []
+            box['script'] = {p_: [0.5 if b else 2.0 for b in rows[p_]] + [2.0] * 12 for p_ in range(procs)}
         hook.events.clear()
         mon['frozen'].clear()
         mon['frozen_viol'].clear()
         log['pfasst'].clear()
         log['comm'].clear()
-        tag = f"{r.key.split('/')[0]} procs={procs} maxiter={maxiter} table={rows} force={box['force_done']}"
+        tag = f"{r.key.split('/')[0]} procs={procs} maxiter={maxiter} table={rows} force={box['force_done']}" + (f' decisions by CheckConvergence, continuation forced at {sorted(fcont)}' if case['mode'] == 'cc' else '')
         try:
             uend, stats = ctrl.run(u0, 0.0, procs * 0.05)
+        except IterationGuard as e:
+            r.check(False, 'block-terminates', f'{tag}: {e}: the block does not terminate (maxiter={maxiter})')
+            for T in ctrl.MS:
+                T.status.force_continue = False
+            continue
         except Exception as e:  # noqa
             r.check(False, 'no-exception', f'{tag}: {type(e).__name__}: {e}')
             continue
@@ -226,7 +277,13 @@ def run_case(case):
         its = {e['slot']: e['iter'] for e in posts}
         r.check(all(its.get(s, 0) >= its.get(s - 1, 0) for s in range(1, procs)), 'finish-iteration-monotone', f'{tag}: iterations at completion {its} (a later step finished before an earlier one)')
         # expected completion from the table (first/last own done after previous completion) -- the rule done := done and prev_done
-        if case['mode'] != 'force' and not cfg['a2d']:
+        if case['mode'] == 'cc':
+            r.count('forced_continuations', len(set(box.get('forced', []))))
+            if not cfg['a2d']:
+                exp = completion_with_force(rows, maxiter, fcont)
+                r.check([its.get(s) for s in range(procs)] == exp, 'completion-matches-table', f'{tag}: completion iterations {its}, the stopping rule gives {exp}')
+                r.count('cc_runs_past_budget', int(any(e_ > maxiter for e_ in exp)))
+        elif case['mode'] != 'force' and not cfg['a2d']:
             canon = canonical(rows, maxiter)
             exp = [c[0] for c in canon]
             r.check([its.get(s) for s in range(procs)] == exp, 'completion-matches-table', f'{tag}: completion iterations {its}, table gives {exp}')
@@ -240,7 +297,7 @@ def run_case(case):
             running = [x for x in st if x != 'DONE']
             r.check(len(set(running)) <= 1, 'stages-equal', f'{tag}: stages at pfasst entry {st}')
         # (6) bounded progress
-        bound = (maxiter + 2) * (6 + 2 * nlev * max(cfg['nsweeps'])) + 8
+        bound = (maxiter + 2 + len(fcont)) * (6 + 2 * nlev * max(cfg['nsweeps'])) + 8
         r.check(len(log['pfasst']) <= bound, 'bounded-progress', f'{tag}: {len(log["pfasst"])} controller stages > bound {bound}')
         # (4) transfers: each effective receive gets the bytes and the tag of the latest send of its predecessor on that level
         last_send = {}
